@@ -696,9 +696,11 @@ class DynamicsSelector(abc.Mapping):
             transitions = transitions.transitions
         self.__choices: dict[TwoBodyDecay, ResonanceDynamicsBuilder] = {}
         for transition in transitions:
-            for node_id in transition.topology.nodes:
-                decay = TwoBodyDecay.from_transition(transition, node_id)
-                self.__choices[decay] = create_non_dynamic
+            for graph in _perform_combinatorics(transition):
+                symmetrized_transition = _freeze(graph)
+                for node_id in symmetrized_transition.topology.nodes:
+                    decay = TwoBodyDecay.from_transition(symmetrized_transition, node_id)
+                    self.__choices[decay] = create_non_dynamic
 
     @singledispatchmethod
     def assign(  # noqa: PLR6301
